@@ -33,6 +33,23 @@ for (pp, rr), n in sorted(cnt.items()):
     ex = next(f for f in kf["findings"] if (f["property"], f["rule"]) == (pp, rr))
     lines.append(f"| {pp} | {rr} | {n} — e.g. `{ex['construct']}` |")
 lines.append(f"| | total | {len(kf['findings'])} listed, {len({l.split()[3] for l in kf['fixed']})} repaired defects ({len(kf['fixed'])} `fixed:` records) |")
+import re as _re
+later = {}
+for l in kf["fixed"]:
+    m = _re.match(r"fixed: property=(C\d\d) (\S+) D(\d+)\b ?(.*)", l)
+    if m and int(m.group(3)) >= 33:
+        d = later.setdefault(int(m.group(3)), {"props": [], "hash": m.group(2), "text": None})
+        d["props"].append(m.group(1))
+        if not m.group(4).startswith("(same commit)") and d["text"] is None:
+            d["text"] = m.group(4)
+fl = ["| # | property | commit | what failed (input) |", "|---|---|---|---|"]
+for k in sorted(later):
+    d = later[k]
+    fl.append(f"| D{k} | {'/'.join(sorted(set(d['props'])))} | {d['hash']} | {(d['text'] or '').replace('|', '/')} |")
+a3, b3 = "<!-- FIX-TABLE-BEGIN -->", "<!-- FIX-TABLE-END -->"
+if a3 in s:
+    i3, j3 = s.index(a3) + len(a3), s.index(b3)
+    s = s[:i3] + "\n" + "\n".join(fl) + "\n" + s[j3:]
 a2, b2 = "<!-- KF-TABLE-BEGIN -->", "<!-- KF-TABLE-END -->"
 if a2 in s:
     i2, j2 = s.index(a2) + len(a2), s.index(b2)
